@@ -2,7 +2,7 @@
    pointer fields; readPtr of Core/Reader.v refines spec_resolve of Spec/Spec.v (soundness on
    any input, completeness when limits suffice); the accessors return the specification's
    values; the walker computes spec_decode. *)
-From CV Require Import Core.Arith Core.Reader Core.ReadOps Spec.Spec.
+From CV Require Import Core.Arith Core.ArithFacts Core.Reader Core.ReadOps Spec.Spec.
 From Coq Require Import ZifyBool ZifyNat ZifyN Lia.
 Ltac Zify.zify_post_hook ::= Z.div_mod_to_equations.
 Open Scope Z_scope.
@@ -54,19 +54,21 @@ Proof. intros w H. unfold word64 in H. unfold otherPointerType, cap_zero, u32. l
 (* the near pointer synthesised from a double-far landing pad: the tag's kind and sizes,
    with the far pointer's word offset as offset (the tag's own offset field is dropped) *)
 Lemma landingPadNearPointer_spec : forall far tag, word64 far -> word64 tag ->
+  far mod 8 = 2 \/ tag mod 4 < 2 ->
   landingPadNearPointer far tag =
   (tag / 4294967296) * 4294967296 + 4 * far_off far + 2 * far_two far + tag mod 4.
 Proof.
-  intros far tag Hf Ht. unfold word64 in *. unfold landingPadNearPointer, far_off, far_two, u32. lia.
+  intros far tag Hf Ht Hd. rewrite landingPadNearPointer_sum by exact Hd.
+  unfold word64 in *. unfold far_off, far_two, u32. lia.
 Qed.
 
-Lemma landing_fields : forall far tag, word64 far -> word64 tag -> far_two far = 0 ->
+Lemma landing_fields : forall far tag, word64 far -> word64 tag -> far_two far = 0 -> ptr_kind tag < 2 ->
   let v := landingPadNearPointer far tag in
   word64 v /\ ptr_kind v = ptr_kind tag /\ off30 v = far_off far /\
   st_dwords v = st_dwords tag /\ st_pcount v = st_pcount tag /\
   ls_esz v = ls_esz tag /\ ls_count v = ls_count tag.
 Proof.
-  intros far tag Hf Ht H2 v. subst v. rewrite landingPadNearPointer_spec by assumption.
+  intros far tag Hf Ht H2 Hk v. subst v. rewrite landingPadNearPointer_spec by (try assumption; right; exact Hk).
   rewrite H2. unfold word64 in *.
   unfold ptr_kind, off30, signed30, far_off, st_dwords, st_pcount, ls_esz, ls_count.
   repeat split; try lia.
@@ -83,7 +85,7 @@ Theorem ptr_fields_spec : forall w, word64 w ->
   farSegment w = far_seg w /\
   capabilityIndex w = cap_index w /\
   otherPointerType w = cap_zero w /\
-  (forall tag, word64 tag ->
+  (forall tag, word64 tag -> w mod 8 = 2 \/ tag mod 4 < 2 ->
      landingPadNearPointer w tag =
      (tag / 4294967296) * 4294967296 + 4 * far_off w + 2 * far_two w + tag mod 4).
 Proof.
@@ -709,10 +711,10 @@ Proof.
   destruct (ptr_kind t =? 2) eqn:E; lia.
 Qed.
 
-Lemma landing_zero_iff : forall f t, word64 f -> word64 t -> far_two f = 0 -> off30 t = 0 ->
+Lemma landing_zero_iff : forall f t, word64 f -> word64 t -> far_two f = 0 -> ptr_kind t < 2 -> off30 t = 0 ->
   (landingPadNearPointer f t =? 0) = (t =? 0) && (far_off f =? 0).
 Proof.
-  intros f t Hf Ht H2 Ho. rewrite landingPadNearPointer_spec by assumption. rewrite H2.
+  intros f t Hf Ht H2 Hk Ho. rewrite landingPadNearPointer_spec by (try assumption; right; exact Hk). rewrite H2.
   pose proof (far_off_range f). unfold word64 in *.
   unfold off30, signed30 in Ho. destruct ((t / 4) mod 1073741824 <? 536870912) eqn:E; lia.
 Qed.
@@ -863,8 +865,9 @@ Proof.
     2:{ unfold spec_obj. rewrite Hds. apply none_err. }
     pose proof (seg_at_ok _ _ _ Hb Hds) as Hokds.
     assert (F20 : far_two f = 0) by lia. assert (O0 : off30 t = 0) by lia.
-    destruct (landing_fields f t Hf Ht F20) as (Hwl & L1 & L2 & L3 & L4 & L5 & L6).
-    pose proof (landing_zero_iff f t Hf Ht F20 O0) as LZ.
+    assert (KT : ptr_kind t < 2) by lia.
+    destruct (landing_fields f t Hf Ht F20 KT) as (Hwl & L1 & L2 & L3 & L4 & L5 & L6).
+    pose proof (landing_zero_iff f t Hf Ht F20 KT O0) as LZ.
     set (v := landingPadNearPointer f t) in *.
     change (readPtr_tail m rl (far_seg f) ds 0 v depth) with (readPtr_tail m rl (far_seg f) ds (8 * (-1 + 1)) v depth).
     pose proof (tail_spec m rl (far_seg f) ds (-1) v depth Hds Hokds Hwl) as T.
